@@ -697,4 +697,234 @@ Section Maximise.
         assert (0 <= inject_Z (Z.of_nat (S f))) by (change 0 with (inject_Z 0); rewrite <- Zle_Qle; lia).
         nra.
   Qed.
+
+  (* ---- termination: every iteration that does not end the loop removes a growable track or exhausts the space *)
+  Definition tok (t : track XQ) : Prop := tfin t /\ 0 <= val (incurred t).
+  Definition G (l : list (track XQ)) : nat := length (filter mgrow l).
+
+  Lemma tok_inv t : tok t -> exists b l i, base_size t = Fin b /\ mlim t = Fin l /\ incurred t = Fin i /\ 0 <= i.
+  Proof.
+    intros [[Hb [Hl Hi]] Hn]. destruct (fin_inv _ Hb) as [b Eb]. destruct (fin_inv _ Hl) as [l El].
+    destruct (fin_inv _ Hi) as [i Ei]. exists b, l, i. rewrite Ei in Hn. simpl in Hn. auto.
+  Qed.
+
+  Lemma mgrow_q t b l i : base_size t = Fin b -> mlim t = Fin l -> incurred t = Fin i -> (mgrow t = true <-> b + i < l).
+  Proof.
+    intros Eb El Ei. unfold mgrow, growable, all_aff. rewrite Eb, El, Ei. xq0. rewrite andb_true_r.
+    cbn [x_add]. apply x_ltb_fin.
+  Qed.
+
+  Lemma accepted_q y t b l : base_size t = Fin b -> mlim t = Fin l ->
+    (accepted (Fin y) t = true <-> 0 < y * 1 /\ b + y * 1 <= l + T_q).
+  Proof.
+    intros Eb El. unfold accepted. rewrite Eb, El. cbn [x_mul x_add]. rewrite andb_true_iff, x_ltb_fin, x_leb_fin. tauto.
+  Qed.
+
+  Lemma bump_tok y t : tok t -> 0 < y -> tok (bump (Fin y) t).
+  Proof.
+    intros Ht Hy. destruct (tok_inv t Ht) as [b [l [i [Eb [El [Ei Hi]]]]]].
+    unfold bump. destruct (accepted (Fin y) t); [|exact Ht].
+    unfold tok, tfin. cbn [base_size set_incurred incurred]. unfold mlim, fit_content_limited_growth_limit, fit_content_limit.
+    cbn [growth_limit maxf set_incurred]. fold (fit_content_limit inner t). fold (fit_content_limited_growth_limit inner t). fold (mlim t).
+    rewrite Eb, El, Ei. cbn [x_mul x_add finite val]. split; [tauto|lra].
+  Qed.
+
+  Lemma ones_sum (g : list (track XQ)) :
+    exists s, @fsum XQ _ (map prop1 g) = Fin s /\ s == inject_Z (Z.of_nat (length g)).
+  Proof.
+    destruct (fsum_fin (map prop1 g)) as [s [E1 E2]].
+    - apply Forall_map. apply Forall_forall. intros; exact I.
+    - exists s. split; [exact E1|]. rewrite E2. clear. induction g as [|t r IH].
+      + reflexivity.
+      + cbn [map qsum length]. rewrite IH, Nat2Z.inj_succ, <- Z.add_1_r, inject_Z_plus.
+        change (val (prop1 t)) with 1. change (inject_Z 1) with 1. lra.
+  Qed.
+
+  Lemma min_by_first_fin (qs : list Q) : qs <> [] ->
+    exists m, @min_by_first XQ _ (map Fin qs) = Fin m /\ (exists q, In q qs /\ q == m) /\ (forall q, In q qs -> m <= q).
+  Proof.
+    destruct qs as [|q0 r]; [congruence|]. intros _. unfold min_by_first. cbn [map].
+    revert q0. induction r as [|x r IH]; intro q0; cbn [map fold_left].
+    - exists q0. split; [reflexivity|]. split.
+      + exists q0. split; [left; reflexivity|reflexivity].
+      + intros q [E|[]]. subst. lra.
+    - xq0. destruct (x_ltb (Fin x) (Fin q0)) eqn:E.
+      + apply x_ltb_fin in E. destruct (IH x) as [m [E1 [[q [Hq1 Hq2]] E3]]]. exists m. split; [exact E1|]. split.
+        * exists q. split; [|exact Hq2]. destruct Hq1 as [Hq1|Hq1]; [right; left; exact Hq1|right; right; exact Hq1].
+        * intros q' [Hq'|[Hq'|Hq']].
+          -- subst. assert (m <= x) by (apply E3; left; reflexivity). lra.
+          -- subst. apply E3. left; reflexivity.
+          -- apply E3. right; exact Hq'.
+      + apply x_ltb_fin_false in E. destruct (IH q0) as [m [E1 [[q [Hq1 Hq2]] E3]]]. exists m. split; [exact E1|]. split.
+        * exists q. split; [|exact Hq2]. destruct Hq1 as [Hq1|Hq1]; [left; exact Hq1|right; right; exact Hq1].
+        * intros q' [Hq'|[Hq'|Hq']].
+          -- subst. apply E3. left; reflexivity.
+          -- subst. assert (m <= q0) by (apply E3; left; reflexivity). lra.
+          -- apply E3. right; exact Hq'.
+  Qed.
+
+  Lemma filter_count_le {A} (p q : A -> bool) l :
+    (forall x, In x l -> p x = true -> q x = true) -> (length (filter p l) <= length (filter q l))%nat.
+  Proof.
+    induction l as [|a l IH]; intro Hpq; simpl; [lia|].
+    assert (Hl : (length (filter p l) <= length (filter q l))%nat) by (apply IH; intros; apply Hpq; [right|]; auto).
+    destruct (p a) eqn:Ep.
+    - rewrite (Hpq a (or_introl eq_refl) Ep). simpl. lia.
+    - destruct (q a); simpl; lia.
+  Qed.
+
+  Lemma filter_map_count_lt {A} (p q : A -> bool) (f : A -> A) l :
+    (forall x, In x l -> p (f x) = true -> q x = true) ->
+    (exists x, In x l /\ q x = true /\ p (f x) = false) ->
+    (length (filter p (map f l)) < length (filter q l))%nat.
+  Proof.
+    induction l as [|a l IH]; intros Hpq [x [Hin [Hq Hp]]]; [destruct Hin|].
+    assert (Hle : (length (filter p (map f l)) <= length (filter q l))%nat).
+    { clear IH Hin. assert (Hl : forall x, In x l -> p (f x) = true -> q x = true) by (intros; apply Hpq; [right|]; auto).
+      clear Hpq. induction l as [|c l IHl]; simpl; [lia|].
+      assert (IHl' : (length (filter p (map f l)) <= length (filter q l))%nat) by (apply IHl; intros; apply Hl; [right|]; auto).
+      destruct (p (f c)) eqn:Ep.
+      - rewrite (Hl c (or_introl eq_refl) Ep). simpl. lia.
+      - destruct (q c); simpl; lia. }
+    simpl. destruct Hin as [Ea|Hin].
+    - subst a. rewrite Hp, Hq. simpl. lia.
+    - assert (Hlt : (length (filter p (map f l)) < length (filter q l))%nat).
+      { apply IH; [intros; apply Hpq; [right|]; auto|]. exists x. auto. }
+      destruct (p (f a)) eqn:Ep.
+      + rewrite (Hpq a (or_introl eq_refl) Ep). simpl. lia.
+      + destruct (q a); simpl; lia.
+  Qed.
+
+  (* the space left after one iteration: every accepted track takes y * 1 *)
+  Lemma mapply_fst y sp tracks : Forall tok tracks ->
+    exists sp', fst (mapply (Fin y) (Fin sp) tracks) = Fin sp'
+                /\ sp' == sp - (y * 1) * inject_Z (Z.of_nat (length (filter (accepted (Fin y)) tracks))).
+  Proof.
+    revert sp. induction tracks as [|t r IH]; intros sp Hok.
+    - exists sp. split; [reflexivity|]. cbn [filter length]. change (inject_Z (Z.of_nat 0)) with 0. lra.
+    - inversion Hok as [|? ? Ht Hr]; subst.
+      unfold mapply. cbn [apply_increase all_aff filter]. fold mapply. rewrite threshold_xq. unfold prop1. xq0.
+      fold (accepted (Fin y) t). destruct (accepted (Fin y) t) eqn:Ea.
+      + destruct (IH (sp + - (y * 1)) Hr) as [sp' [E1 E2]]. cbn [x_mul x_sub x_add x_neg].
+        destruct (mapply (Fin y) (Fin (sp + - (y * 1))) r) as [s0 r0]. simpl in E1. subst s0.
+        exists sp'. split; [reflexivity|]. rewrite E2. cbn [length]. rewrite Nat2Z.inj_succ, <- Z.add_1_r, inject_Z_plus.
+        change (inject_Z 1) with 1. lra.
+      + destruct (IH sp Hr) as [sp' [E1 E2]]. destruct (mapply (Fin y) (Fin sp) r) as [s0 r0]. simpl in E1. subst s0.
+        exists sp'. split; [reflexivity|]. exact E2.
+  Qed.
+
+  Lemma mstep_progress sp tracks s' ts' : Forall tok tracks -> mstep (Fin sp) tracks = Some (s', ts') ->
+    Forall tok ts' /\ exists sp', s' = Fin sp' /\ ((G ts' < G tracks)%nat \/ sp' <= 0).
+  Proof.
+    intros Hok Hstep. unfold mstep, distribute_step in Hstep. rewrite threshold_xq in Hstep. xq0.
+    destruct (x_ltb (Fin T_q) (Fin sp)) eqn:Esp; [|discriminate]. apply x_ltb_fin in Esp.
+    change (growable all_aff base_size mlim) with mgrow in Hstep. set (g := filter mgrow tracks) in *.
+    destruct (ones_sum g) as [ps [Eps Hps]]. rewrite Eps in Hstep.
+    destruct (x_eqb (Fin ps) (Fin 0)) eqn:Ez; [discriminate|].
+    assert (Hg : (0 < length g)%nat).
+    { destruct g as [|? ?] eqn:Eg; [|simpl; lia]. simpl in Hps. exfalso.
+      assert (x_eqb (Fin ps) (Fin 0) = true) by (apply x_eqb_fin; rewrite Hps; reflexivity). congruence. }
+    assert (Hgin : forall t, In t g -> In t tracks /\ mgrow t = true) by (intro t; unfold g; apply filter_In).
+    (* the list of head-rooms *)
+    assert (Hms : exists qs, map (fun t : track XQ => x_div (x_sub (mlim t) (base_size t)) (prop1 t)) g = map Fin qs
+                          /\ qs = map (fun t => (val (mlim t) + - val (base_size t)) / 1) g).
+    { exists (map (fun t => (val (mlim t) + - val (base_size t)) / 1) g). split; [|reflexivity].
+      rewrite map_map. apply map_ext_in. intros t Ht. destruct (Hgin t Ht) as [Hin _].
+      rewrite Forall_forall in Hok. destruct (tok_inv t (Hok t Hin)) as [b [l [i [Eb [El _]]]]].
+      rewrite Eb, El. unfold prop1. xq0. reflexivity. }
+    destruct Hms as [qs [Ems Eqs]]. rewrite Ems in Hstep.
+    assert (Hqs : qs <> []) by (rewrite Eqs; destruct g; [simpl in Hg; lia|discriminate]).
+    destruct (min_by_first_fin qs Hqs) as [m [Em [[qm [Hqm1 Hqm2]] Hmin]]]. rewrite Em in Hstep.
+    assert (Hpsp : 0 < ps).
+    { rewrite Hps. change 0 with (inject_Z 0). rewrite <- Zlt_Qlt. lia. }
+    assert (Hdiv : x_div (Fin sp) (Fin ps) = Fin (sp / ps)).
+    { simpl. assert (Hsgn : q_sign ps = Gt).
+      { unfold q_sign. apply Z.compare_gt_iff. destruct ps as [pn pd]. unfold Qlt in Hpsp. simpl in *. lia. }
+      rewrite Hsgn. reflexivity. }
+    rewrite Hdiv in Hstep.
+    destruct (x_min_fin m (sp / ps)) as [y [Ey [Hy1 [Hy2 Hy3]]]]. rewrite Ey in Hstep.
+    inversion Hstep as [Hres]. clear Hstep.
+    assert (Ets : ts' = map (bump (Fin y)) tracks).
+    { rewrite <- (mapply_map (Fin y) (Fin sp) tracks). unfold mapply. rewrite Hres. reflexivity. }
+    destruct (mapply_fst y sp tracks Hok) as [sp' [Es1 Es2]]. unfold mapply in Es1. rewrite Hres in Es1. simpl in Es1.
+    (* the track with the least head-room *)
+    rewrite Eqs in Hqm1. apply in_map_iff in Hqm1. destruct Hqm1 as [tm [Etm Htm]].
+    destruct (Hgin tm Htm) as [Htm_in Htm_g].
+    rewrite Forall_forall in Hok.
+    destruct (tok_inv tm (Hok tm Htm_in)) as [bm [lm [im [Ebm [Elm [Eim Him]]]]]].
+    assert (Hm_eq : m == lm - bm).
+    { rewrite <- Hqm2, <- Etm, Ebm, Elm. simpl. field. }
+    assert (Hm_pos : 0 < m).
+    { apply (mgrow_q tm bm lm im Ebm Elm Eim) in Htm_g. lra. }
+    assert (Hdivpos : 0 < sp / ps).
+    { apply Qlt_shift_div_l; [exact Hpsp|]. pose proof T_q_pos. lra. }
+    assert (Hy_pos : 0 < y) by (destruct Hy3 as [Hy3|Hy3]; rewrite Hy3; auto).
+    split.
+    - subst ts'. apply Forall_forall. intros t' Hin'. apply in_map_iff in Hin'. destruct Hin' as [t [Et Hin]]. subst t'.
+      apply bump_tok; auto.
+    - exists sp'. split; [exact Es1|].
+      (* every growable track accepts *)
+      assert (Hacc : forall t, In t tracks -> mgrow t = true -> accepted (Fin y) t = true).
+      { intros t Hin Hgt. destruct (tok_inv t (Hok t Hin)) as [b [l [i [Eb [El [Ei Hi]]]]]].
+        apply (accepted_q y t b l Eb El). split; [lra|].
+        assert (Hmt : m <= (l + - b) / 1).
+        { apply Hmin. rewrite Eqs. apply in_map_iff. exists t. rewrite Eb, El. simpl. split; [reflexivity|].
+          unfold g. apply filter_In. auto. }
+        assert ((l + - b) / 1 == l - b) by field. pose proof T_q_pos. lra. }
+      destruct (Qlt_le_dec (sp / ps) m) as [Hcase|Hcase].
+      + (* the space is exhausted *)
+        right. assert (Hy_eq : y == sp / ps) by (destruct Hy3 as [Hy3|Hy3]; lra).
+        assert (Hcount : (length g <= length (filter (accepted (Fin y)) tracks))%nat).
+        { unfold g. apply filter_count_le. intros t Hin Hgt. apply Hacc; auto. }
+        assert (Hq : inject_Z (Z.of_nat (length g)) <= inject_Z (Z.of_nat (length (filter (accepted (Fin y)) tracks)))).
+        { rewrite <- Zle_Qle. lia. }
+        rewrite Es2. rewrite <- Hps in Hq.
+        assert (Hprod : y * 1 * ps == sp) by (rewrite Hy_eq; field; lra).
+        assert (0 <= y * 1) by lra. nra.
+      + (* the least head-room is used up: that track stops being growable *)
+        left. assert (Hy_eq : y == m) by (destruct Hy3 as [Hy3|Hy3]; lra).
+        subst ts'. unfold G. apply filter_map_count_lt.
+        * intros t Hin Hgt. destruct (tok_inv t (Hok t Hin)) as [b [l [i [Eb [El [Ei Hi]]]]]].
+          apply (mgrow_q t b l i Eb El Ei).
+          unfold bump in Hgt. destruct (accepted (Fin y) t) eqn:Ea.
+          -- assert (Hg' : b + (i + y * 1) < l).
+             { apply (mgrow_q (set_incurred t (x_add (incurred t) (x_mul (Fin y) (Fin 1)))) b l (i + y * 1)); auto.
+               rewrite Ei. reflexivity. }
+             lra.
+          -- apply (mgrow_q t b l i Eb El Ei) in Hgt. exact Hgt.
+        * exists tm. split; [exact Htm_in|]. split; [exact Htm_g|].
+          assert (Ea : accepted (Fin y) tm = true).
+          { apply (accepted_q y tm bm lm Ebm Elm). pose proof T_q_pos. split; lra. }
+          unfold bump. rewrite Ea.
+          destruct (mgrow (set_incurred tm (x_add (incurred tm) (x_mul (Fin y) (Fin 1))))) eqn:Eg'; [|reflexivity].
+          exfalso. apply (mgrow_q _ bm lm (im + y * 1)) in Eg'; auto; [lra|]. rewrite Eim. reflexivity.
+  Qed.
+
+  Lemma mstep_none_nonpos sp tracks : sp <= 0 -> mstep (Fin sp) tracks = None.
+  Proof.
+    intro Hsp. unfold mstep, distribute_step. rewrite threshold_xq. xq0.
+    destruct (x_ltb (Fin T_q) (Fin sp)) eqn:E; [|reflexivity]. apply x_ltb_fin in E. pose proof T_q_pos. lra.
+  Qed.
+
+  Lemma mstep_none_G0 space tracks : G tracks = 0%nat -> mstep space tracks = None.
+  Proof.
+    intro Hg. unfold mstep, distribute_step. destruct (ltb threshold space); [|reflexivity].
+    change (growable all_aff base_size mlim) with mgrow. unfold G in Hg. apply length_zero_iff_nil in Hg. rewrite Hg. reflexivity.
+  Qed.
+
+  Theorem mloop_terminates n : forall sp tracks fuel, Forall tok tracks -> (G tracks <= n)%nat -> (n + 1 <= fuel)%nat ->
+    mloop fuel (Fin sp) tracks = mloop (n + 1) (Fin sp) tracks.
+  Proof.
+    induction n as [|n IH]; intros sp tracks fuel Hok Hg Hfuel.
+    - assert (G tracks = 0%nat) by lia. destruct fuel as [|f]; [lia|].
+      unfold mloop. simpl. fold mstep. rewrite (mstep_none_G0 _ _ H). reflexivity.
+    - destruct fuel as [|f]; [lia|]. replace (S n + 1)%nat with (S (n + 1)) by lia.
+      unfold mloop. cbn [distribute_loop]. fold mstep. fold mloop.
+      destruct (mstep (Fin sp) tracks) as [[s' ts']|] eqn:Es; [|reflexivity].
+      destruct (mstep_progress _ _ _ _ Hok Es) as [Hok' [sp' [E' Hd]]]. subst s'.
+      destruct Hd as [Hd|Hd].
+      + rewrite (IH sp' ts' f Hok'); [|lia|lia]. reflexivity.
+      + destruct f as [|f]; [lia|]. replace (n + 1)%nat with (S n) by lia.
+        unfold mloop. cbn [distribute_loop]. fold mstep. rewrite (mstep_none_nonpos _ _ Hd). reflexivity.
+  Qed.
 End Maximise.
